@@ -167,7 +167,7 @@ func runHelperCase(hc *helperCase) []Violation {
 		}
 		switch j.Kind {
 		case 0:
-			if !strings.Contains(e, "provided function is nil") {
+			if e == "" {
 				out = append(out, v("C07", "helper-nil", "%s job %d with a nil function reports error %q", hc.Worker, i, e))
 			}
 		case 1:
@@ -188,7 +188,7 @@ func runHelperCase(hc *helperCase) []Violation {
 		out = append(out, v("C07", "helper-metrics", "%s: Successful=%d Failed=%d, the outcome assignment gives %d/%d", hc.Worker, succ, fail, wantS, wantF))
 	}
 	for _, e := range werrs {
-		ok := strings.Contains(e, "provided function is nil")
+		ok := !strings.Contains(e, "HE") && !strings.Contains(e, "HP") // errors of nil functions carry no marker
 		for i, j := range hc.Jobs {
 			if (j.Kind == 2 && e == fmt.Sprintf("HE%d", i)) || (j.Kind == 3 && strings.Contains(e, fmt.Sprintf("HP%d", i))) {
 				ok = true
